@@ -9,6 +9,7 @@ import (
 	"path/filepath"
 	"sort"
 	"strings"
+	"syscall"
 	"testing"
 
 	pb "github.com/ipfs/boxo/ipld/unixfs/pb"
@@ -388,4 +389,69 @@ func sortedAll(n *fsNode) []string {
 	}
 	sort.Strings(out)
 	return out
+}
+
+// An ordinary large tree (a few thousand small files, symlinks and directories, 30 levels deep in one branch) imported
+// while the process may open only a few dozen more descriptors than it already has: the importer is expected to hold one
+// file (and at most one directory per level while it lists it) at a time, as it does on the unchanged tree; a change that
+// keeps every file open until the end of its directory, or of the import, fails here the way it would on a production tree
+// under the usual limit of 1024.
+func TestC18_R_ManyFilesFewDescriptors(t *testing.T) {
+	root := &fsNode{Kind: fsDir, Kids: map[string]*fsNode{}}
+	for d := 0; d < 6; d++ {
+		sub := &fsNode{Kind: fsDir, Kids: map[string]*fsNode{}}
+		for i := 0; i < 500; i++ {
+			switch {
+			case i%50 == 7:
+				sub.Kids[fmt.Sprintf("l%03d", i)] = &fsNode{Kind: fsSymlink, Target: fmt.Sprintf("f%03d", i-1)}
+			case i%100 == 13:
+				sub.Kids[fmt.Sprintf("d%03d", i)] = &fsNode{Kind: fsDir, Kids: map[string]*fsNode{"inner": {Kind: fsFile, Data: []byte{byte(i)}}}}
+			default:
+				sub.Kids[fmt.Sprintf("f%03d", i)] = &fsNode{Kind: fsFile, Data: lcgBytes(i%97, byte(d+1), 0)}
+			}
+		}
+		root.Kids[fmt.Sprintf("sub%d", d)] = sub
+	}
+	cur := root
+	for lvl := 0; lvl < 30; lvl++ {
+		next := &fsNode{Kind: fsDir, Kids: map[string]*fsNode{"leaf": {Kind: fsFile, Data: []byte{byte(lvl)}}}}
+		cur.Kids["deeper"] = next
+		cur = next
+	}
+	st := NewStore()
+	ls := st.LinkSystem()
+	err := withFSTree(root, func(p string) {
+		fds, err := os.ReadDir("/proc/self/fd")
+		if err != nil {
+			t.Skipf("harness: cannot count descriptors: %v", err)
+		}
+		var old syscall.Rlimit
+		if err := syscall.Getrlimit(syscall.RLIMIT_NOFILE, &old); err != nil {
+			t.Skipf("harness: getrlimit: %v", err)
+		}
+		maxFd := 0
+		for _, e := range fds {
+			var n int
+			if _, err := fmt.Sscanf(e.Name(), "%d", &n); err == nil && n > maxFd {
+				maxFd = n
+			}
+		}
+		low := syscall.Rlimit{Cur: uint64(maxFd + 1 + 48), Max: old.Max}
+		if err := syscall.Setrlimit(syscall.RLIMIT_NOFILE, &low); err != nil {
+			t.Skipf("harness: setrlimit: %v", err)
+		}
+		l, _, berr := builder.BuildUnixFSRecursive(p, ls)
+		if err := syscall.Setrlimit(syscall.RLIMIT_NOFILE, &old); err != nil {
+			t.Fatalf("harness: restoring the descriptor limit: %v", err)
+		}
+		if berr != nil {
+			t.Fatalf("C18: importing a tree of %d entities with room for 48 more open descriptors: %v", root.count(), berr)
+		}
+		if err := c18Compare(st, ls, cidOf(l), root, ""); err != nil {
+			t.Fatalf("C18 many files: %v", err)
+		}
+	})
+	if err != nil {
+		t.Fatal(err)
+	}
 }
